@@ -271,6 +271,43 @@ func TestC10(t *testing.T) {
 		}
 		rep.Stat("cross_kind_lookups:"+mode, int64(cross))
 	}
+	// the same variables in fixed orders (the sweep above follows map iteration, which differs from run to run): by
+	// descending and ascending address, ties broken by name either way, and by descending name. A lookup that keeps
+	// anything from the previous one (a resume position, a last hit) meets every neighbour pair in both directions
+	if mode == "default" || mode == "strip-w" || mode == "external" {
+		type nv struct {
+			n string
+			a uintptr
+		}
+		var all []nv
+		for n, p := range vars.Addrs {
+			all = append(all, nv{n, uintptr(p)})
+		}
+		orders := []func(x, y nv) bool{
+			func(x, y nv) bool { return x.a > y.a || (x.a == y.a && x.n > y.n) },
+			func(x, y nv) bool { return x.a > y.a || (x.a == y.a && x.n < y.n) },
+			func(x, y nv) bool { return x.a < y.a || (x.a == y.a && x.n < y.n) },
+			func(x, y nv) bool { return x.n > y.n },
+		}
+		ordered := 0
+		for oi, less := range orders {
+			sort.Slice(all, func(i, j int) bool { return less(all[i], all[j]) })
+			for _, v := range all {
+				a, err := findVar(varPkg + "." + v.n)
+				rep.Eval(1)
+				ordered++
+				if err != nil {
+					rep.Violate("C10/present-variable-not-found", fmt.Sprintf("[%s] FindVarByName(%s) in fixed order %d: %v, but the variable is in the binary at %#x", mode, v.n, oi, err, v.a), map[string]interface{}{"name": v.n, "mode": mode})
+					break
+				}
+				if a != v.a {
+					rep.Violate("C10/variable-address-wrong", fmt.Sprintf("[%s] FindVarByName(%s) in fixed order %d = %#x, &%s = %#x", mode, v.n, oi, a, v.n, v.a), map[string]interface{}{"name": v.n, "mode": mode})
+					break
+				}
+			}
+		}
+		rep.Stat("ordered_variable_lookups:"+mode, int64(ordered))
+	}
 	rep.Stat("variables_exact:"+mode, int64(vexact))
 	rep.Stat("variables_error:"+mode, int64(verr))
 	rep.Class(fmt.Sprintf("%s/variables/exact=%v/error=%v", mode, vexact > 0, verr > 0))
